@@ -30,6 +30,10 @@ impl<'a> WireFormat<'a> for EUI48 {
     where
         Self: Sized,
     {
+        if *position + 6 > data.len() {
+            return Err(crate::SimpleDnsError::InsufficientData);
+        }
+
         let address =data[*position..*position + 6].try_into()?;
         *position += 6;
         Ok(Self { address })
@@ -50,6 +54,10 @@ impl<'a> WireFormat<'a> for EUI64 {
     where
         Self: Sized,
     {
+        if *position + 8 > data.len() {
+            return Err(crate::SimpleDnsError::InsufficientData);
+        }
+
         let address =data[*position..*position + 8].try_into()?;
         *position += 8;
         Ok(Self { address })
